@@ -9,6 +9,61 @@ def exes():
         build.link("asan", "c01", ["kernel.c", "c01.c"], LD),
         build.link("asan-nopool", "c01", ["kernel.c", "c01.c"], LD))}
 
+def cli_leg(rep, tier):
+    """the command-line tool itself (main.c: stdin, file, batch mode, transclusion, metadata options) built with ASan+UBSan"""
+    import subprocess, tempfile, shutil, time
+    from concurrent.futures import ThreadPoolExecutor
+    t0 = time.time()
+    cli = build.link("asan", "multimarkdown", [], with_main=True)
+    macro = [m for m in load_alpha("macro") if b"\x00" not in m]
+    fmts = ["html", "latex", "beamer", "memoir", "fodt", "odt", "epub", "bundlezip", "opml", "itmz", "mmd"]
+    flagsets = [[], ["-c"], ["-a", "-f"], ["-m"], ["-e", "title"], ["--nolabels", "--random", "--unique", "-s"]]
+    tmp = tempfile.mkdtemp(prefix="vp-c01cli-", dir="/dev/shm" if os.path.isdir("/dev/shm") else None)
+    for k in ("i.png", "f.png", "a.css", "t.txt"): shutil.copy(os.path.join(core.VERIF, "fixtures", "assets", k), tmp)
+    jobs = []
+    for i, doc in enumerate(macro):
+        for fi, f in enumerate(fmts):
+            for gi, fl in enumerate(flagsets if tier != "quick" else flagsets[:3]):
+                if tier == "quick" and (i + fi + gi) % 3: continue
+                jobs.append((i, doc, f, fl))
+    env = core.driver_env()
+    def one(j):
+        i, doc, f, fl = j; out = []
+        sub = os.path.join(tmp, "j%d_%s_%d" % (i, f, len(fl))); os.makedirs(sub, exist_ok=True)
+        inp = os.path.join(sub, "in.txt"); open(inp, "wb").write(doc)
+        for mode, cmd, kw in (("stdin", [cli] + fl + ["-t", f], dict(input=doc)), ("file", [cli] + fl + ["-t", f, "-o", os.path.join(sub, "o.bin"), inp], {}), ("batch", [cli] + fl + ["-t", f, "-b", "in.txt"], {})):
+            try:
+                r = subprocess.run(cmd, capture_output=True, env=env, cwd=sub, timeout=120, **kw)
+            except subprocess.TimeoutExpired:
+                out.append(("hang", "CLI did not finish within 120 s: %s" % " ".join(cmd[1:]), dict(src=doc[:300].decode("latin-1"), format=f, flags=fl, mode=mode))); continue
+            err = r.stderr.decode(errors="replace")
+            if r.returncode < 0 or "Sanitizer" in err or "runtime error" in err:
+                sig = core.sanitizer_signature(err, "signal %d" % -r.returncode if r.returncode < 0 else "exit %d" % r.returncode)
+                out.append((sig + ":cli", "multimarkdown %s :: %s" % (" ".join(cmd[1:]), err[:1200]), dict(src=doc[:300].decode("latin-1"), format=f, flags=fl, mode=mode)))
+        shutil.rmtree(sub, ignore_errors=True)
+        return out
+    n = 0
+    with ThreadPoolExecutor(16) as ex:
+        for vs in ex.map(one, jobs):
+            n += 3
+            for sig, det, case in vs: rep.add_violation(sig, det, case, replay=dict(kind="cli"))
+    shutil.rmtree(tmp, ignore_errors=True)
+    rep.add_level("asan-cli", n, n, True, time.time() - t0, max(len(jobs), 2), "the real CLI (ASan+UBSan build of main.c) on macro documents x 11 formats x flag sets x {stdin, file with -o, batch -b}")
+
+def load_alpha(name):
+    from checks.c08 import load_alpha as la
+    out = []
+    import re
+    for ln in open(os.path.join(core.VERIF, "alphabets", name + ".txt"), "rb").read().split(b"\n"):
+        if not ln or ln.startswith(b";;"): continue
+        # expand \R<n>{text}
+        def rep_(m): return m.group(2).replace(b"\\n", b"\n").replace(b"\\s", b" ").replace(b"\\t", b"\t") * int(m.group(1))
+        ln = re.sub(rb"\\R(\d+)\{((?:[^}\\]|\\.)*)\}", rep_, ln)
+        ln = ln.replace(b"\\\\", b"\x00").replace(b"\\n", b"\n").replace(b"\\t", b"\t").replace(b"\\s", b" ").replace(b"\\z", b"").replace(b"\\r", b"\r")
+        ln = re.sub(rb"\\x([0-9a-fA-F]{2})", lambda m: bytes([int(m.group(1), 16)]), ln).replace(b"\x00", b"\\")
+        out.append(ln)
+    return out
+
 def run(tier):
     rep = core.Report("C01", tier, "exploration")
     rep.rule = ("every document ctx.pre+f1..fL+ctx.post over the fragment alphabets (alphabets/*.txt), crossed with formats, "
@@ -24,6 +79,7 @@ def run(tier):
     for name, exe in sorted(ex.items()):
         variant = name.split("-", 1)[1]
         core.run_driver(rep, exe, "thorough" if tier != "quick" else "quick", variant, levels=QUICK if tier == "quick" else THOROUGH[variant], hang=30 if tier == "quick" else 120)
+    cli_leg(rep, tier)
     core.reclassify_self_referential_notes(rep)
     core.confirm_violations(rep, ex)
     return rep.finish()
@@ -37,7 +93,7 @@ def replay(rec):
     return 1 if sigs else 0
 
 def prepare():
-    exes()
+    exes(); build.link("asan", "multimarkdown", [], with_main=True)
 
 META = dict(
     level="exploration", engine="E1",
